@@ -46,9 +46,9 @@ ASSUMPTIONS = [
     "/ 0xC000 / 0xBC00 (v2) with the target's alignment, explicit offsets restart the cursor, containers sit in 1 KiB / 16 KiB slots)",
     "PQC (Dilithium/ML-DSA) and SM2 keys, NXP SRK set, dummy signatures (unsigned placeholders), template images (spl, atf, ...) are out of scope",
 ]
-FLOORS = {"exported": 0.5, "srk:oem": 0.3, "containers>=2": 0.2, "images>=2": 0.3, "encrypted": 0.06, "explicit_offset": 0.1,
-          "refused": 0.03, "problem:image_overlap": 0.008, "problem:container_overflow": 0.004, "rsa": 0.08, "ver:2": 0.05,
-          "certificate": 0.008, "tamper:signed": 0.25, "tamper:image": 0.25}
+FLOORS = {"exported": 0.25, "srk:oem": 0.15, "containers>=2": 0.1, "images>=2": 0.15, "encrypted": 0.03, "explicit_offset": 0.05,
+          "refused": 0.015, "problem:image_overlap": 0.004, "problem:container_overflow": 0.002, "rsa": 0.04, "ver:2": 0.025,
+          "certificate": 0.004, "tamper:signed": 0.125, "tamper:image": 0.125}
 
 FIX = os.path.join(VERIF_DIR, "fixtures", "c06")
 TARGETS = ["standard", "nand_2k", "nand_4k", "serial_downloader", "nor"]
